@@ -209,6 +209,18 @@ def _check(pid, tier, sc, t0, extra_hook, sink=None):
         ex = exhaustive_suite(pid)
         exhaustive_n = len(ex)
         hs = hs + ex
+    large_n = 0
+    if pid in ("C01", "C02", "C08", "C09"):
+        # wide nodes and tall trees: the states size-dependent code paths need
+        plan = genseq.LARGE_QUICK if tier == "quick" else genseq.LARGE_THOROUGH * 3
+        for i, (o, nk) in enumerate(plan):
+            # one pointer-free and one pointer-carrying key type per size
+            hs.append(genseq.large_history(rng, ["i32", "i64", "u32", "u64"][(i + vlib.SEED) % 4], o, nk))
+            hs.append(genseq.large_history(rng, ["str", "cmp"][(i + vlib.SEED) % 2], o, nk))
+        if tier == "thorough" and pid in ("C01", "C08"):
+            hs.append(genseq.large_history(rng, "u64", 1024, 530000))
+            hs.append(genseq.large_history(rng, "str", 64, 2300))
+        large_n = 2 * len(plan)
     if extra_hook:
         hs = extra_hook(rng, tier) + hs
     results = vlib.run_seq_parallel(bindir, sc, "main", hs)
@@ -280,7 +292,7 @@ def _check(pid, tier, sc, t0, extra_hook, sink=None):
                samples=samples, traces_validated_against_impl=len(results),
                disagreements_checked=sum(1 for r in results if r["mismatch"]),
                known_findings=sorted(known_hits), search_histories=searched, distribution=st,
-               exhaustive_histories=exhaustive_n,
+               exhaustive_histories=exhaustive_n, large_histories=large_n,
                exhaustive_note=("every sequence of 5 insert/delete operations over 5 keys (i64 and Comparable with order-equivalent keys), every sequence of 7 over 3 keys at order 4, every sequence of 6 inserts over 4 string keys at order 2; each followed by a snapshot, all lookups and scans from every key" if exhaustive_n else ""),
                proof_problems=proof["problems"])
     assumptions = ["callbacks are pure; single goroutine", "Go slice semantics as modelled in Slice.lean"]
